@@ -122,7 +122,51 @@ def many_answers_case(rng):
     return cl, q[0], q[1], (150 if q[0] == 'nat' else 2200)
 
 
+def wide_case(rng):
+    """record-style predicates of arity 9-16: heads with many constant / compound arguments and variables that occur
+    at several direct argument positions, queried with every mix of bound, unbound and aliased arguments"""
+    K = rng.choice([9, 10, 11, 12, 14, 16])
+    consts = [A('k%d' % i) for i in range(4)] + [I(1), C('f', A('a')), L([A('a')])]
+    X, Y = V('X'), V('Y')
+
+    def head_args():
+        out = []
+        for i in range(K):
+            r = rng.random()
+            if r < 0.62:
+                out.append(consts[(i + rng.choice([0, 0, 0, 1])) % len(consts)])
+            elif r < 0.82:
+                out.append(X)
+            elif r < 0.9:
+                out.append(Y)
+            elif r < 0.95:
+                out.append(C('g', X))
+            else:
+                out.append(V('_'))
+        return out
+    cl = [(C('w', *head_args()), ('true',)) for _ in range(rng.choice([2, 3, 4]))]
+    ha = head_args()
+    cl.append((C('wr', *ha), ('and', ('call', C('w', *[a if a[0] == 'v' and a[1] != '_' else V('B%d' % i) for i, a in enumerate(ha)])),
+                              ('call', C('=', Y, rng.choice([X, A('k0'), Y]))))))
+    qv = [V('Q0'), V('Q1'), V('Q2')]
+    qargs = []
+    for i in range(K):
+        r = rng.random()
+        if r < 0.45:
+            qargs.append(consts[i % len(consts)])
+        elif r < 0.85:
+            qargs.append(rng.choice(qv))
+        elif r < 0.93:
+            qargs.append(rng.choice(consts))
+        else:
+            qargs.append(C('g', rng.choice(qv)))
+    return cl, rng.choice(['w', 'w', 'wr']), qargs
+
+
 def run_case(ctx, seed, idx, tier):
+    if idx >= ctx['exh'] and (idx - ctx["exh"]) % 50 == 3:
+        clauses, qn, qargs = wide_case(random.Random(seed * 41 + idx))
+        return _case(ctx, clauses, qn, qargs, None, {'wide_heads': 1})
     if idx >= ctx['exh'] and (idx - ctx["exh"]) % 3000 == 11:
         clauses, qn, qargs, cap = many_answers_case(random.Random(seed * 37 + idx))
         return _case(ctx, clauses, qn, qargs, None, {'queries_with_many_answers': 1}, maxans=cap)
